@@ -126,21 +126,44 @@ static void c20_table(const Req &req, std::ostream &out) {
                     if (prod[i][j] != acc) fail("square_mat_mul", i, j);
                 }
         }
-        // lower triangular with unit diagonal
-        Mat lt(n, std::vector<bool>(n, false));
-        for (size_t i = 0; i < n; i++) {
-            lt[i][i] = true;
-            for (size_t j = 0; j < i; j++) lt[i][j] = m2[i][j];
-        }
-        auto tl = to_table<W>(lt, n, n);
-        auto inv = tl.inverse_assuming_lower_triangular(n);
-        if (n <= 200) {
-            for (size_t i = 0; i < n; i++)
-                for (size_t j = 0; j < n; j++) {
-                    bool acc = false;
-                    for (size_t k = 0; k < n; k++) acc ^= (lt[i][k] && (bool)inv[k][j]);
-                    if (acc != (i == j)) fail("inverse_assuming_lower_triangular", i, j);
+        // lower triangular with unit diagonal: a dense one, and sparse ones whose few off-diagonal bits sit at and next to
+        // 64-bit word boundaries (word-skipping shortcuts in the elimination must not lose them)
+        for (int variant = 0; variant < 8; variant++) {
+            Mat lt(n, std::vector<bool>(n, false));
+            for (size_t i = 0; i < n; i++) lt[i][i] = true;
+            if (variant == 0) {
+                for (size_t i = 0; i < n; i++)
+                    for (size_t j = 0; j < i; j++) lt[i][j] = m2[i][j];
+            } else if (n >= 2) {
+                uint64_t st = seed * 6364136223846793005ULL + 1442695040888963407ULL * (uint64_t)(variant + 1);
+                auto nxt = [&]() {
+                    st = st * 6364136223846793005ULL + 1442695040888963407ULL;
+                    return st >> 33;
+                };
+                size_t nbits = variant <= 3 ? 1 : (variant <= 5 ? 3 : n / 3 + 1);
+                for (size_t b = 0; b < nbits; b++) {
+                    size_t i = 1 + nxt() % (n - 1);
+                    size_t j = nxt() % i;
+                    if (nxt() % 2 == 0 && i > 64) {
+                        // snap the column to a word boundary or its neighbours
+                        size_t base = 64 * (1 + nxt() % (i / 64));
+                        size_t off[3] = {0, 1, 63};
+                        size_t cand = base - 64 + off[nxt() % 3] + (nxt() % 2 ? 64 : 0);
+                        if (cand < i) j = cand;
+                    }
+                    lt[i][j] = true;
                 }
+            }
+            auto tl = to_table<W>(lt, n, n);
+            auto inv = tl.inverse_assuming_lower_triangular(n);
+            if (n <= 200) {
+                for (size_t i = 0; i < n; i++)
+                    for (size_t j = 0; j < n; j++) {
+                        bool acc = false;
+                        for (size_t k = 0; k < n; k++) acc ^= (lt[i][k] && (bool)inv[k][j]);
+                        if (acc != (i == j)) fail("inverse_assuming_lower_triangular", i, j);
+                    }
+            }
         }
     }
     out << "DONE " << bad << "\n";
